@@ -706,8 +706,8 @@ theorem tokenize_renderS (T : Tables) (hT : TablesOK T) (hC : TablesCanon T) (hC
   obtain ⟨q, ts, hts, hel⟩ := hel R
   have hbom : Stream.startsWith ⟨0, R⟩ Lit.bom = false := by
     rw [eR]; simp [Stream.startsWith, Lit.bom, List.isPrefixOf]
-  have hdecl : Stream.startsWith ⟨0, R⟩ Lit.xmlDecl = false := by
-    rw [eR]; exact startsWith_tag 0 b r hb 63 _ (by decide)
+  have hdecl : Stream.startsWithXmlDecl T ⟨0, R⟩ = false := by
+    rw [eR]; exact startsWithXmlDecl_false_of_open T (startsWith_tag 0 b r hb 63 _ (by decide))
   have hdoc : Stream.startsWith ⟨0, R⟩ Lit.doctype = false := by
     rw [eR]; exact startsWith_tag 0 b r hb 33 _ (by decide)
   have hmisc : parseMisc T R (R.length + 1) ⟨0, R⟩ = ret [] ⟨0, R⟩ := by
